@@ -167,6 +167,15 @@ PROPS = {
         unit("c09", "proxy/tcp", TCP_COMMON + ["tcp/c10_test.go", "tcp/c09_test.go"], "^TestVerifC09", engines=SCHED + ["vhook", "vnet"], sched_env={"GOMAXPROCS": "1"}, shards={"quick": 8, "thorough": 16},
              rewrite=[{"files": ["proxy/tcp/tcp_proxy.go", "proxy/tcp/sni_proxy.go", "proxy/tcp/tcp_dynamic_proxy.go"], "opts": ["-go", "-chan", "-sel", "net.DialTimeout=vhook.DialTimeout"]}]),
     ], layers={"quick": ["c09-tunnels"], "thorough": ["c09-tunnels"]}),
+    "C18": dict(level="model_checking", engine="vsched",
+        technique="stateless model checking of tcp.Server Serve/Shutdown under a controlled scheduler with virtual time + exhaustive scenario matrix on real http/https/tcp/grpc/sni servers with causal barriers",
+        level_text="(core) every interleaving up to the reported preemption bound of the real tcp.Server accept loop, 1-2 connection handlers (finishing early, late or never), a late connect and Shutdown with a virtual 10 s wait: no accept after the listeners were closed, early handlers are not cut off, Shutdown returns by the wait and leaves no connection open, no deadlock. (servers) the matrix listener kind x in-flight work x shutdown moment on real servers started through fabio's ListenAndServe* and stopped with proxy.Shutdown.",
+        level_note="net/http, grpc-go and the kernel cannot be put under the scheduler: for them this is a scenario matrix sequenced by causal barriers with a slack of 5 s (two orders of magnitude above scheduling noise), not an interleaving exploration. Shutdown is started only once the accept loop runs (a Shutdown racing server start-up is outside the statement).",
+        units=[
+        unit("c18-core", "proxy/tcp", TCP_COMMON + ["tcp/c10_test.go", "tcp/c09_test.go", "tcp/c18_test.go"], "^TestVerifC18", engines=SCHED + ["vhook", "vnet"], sched_env={"GOMAXPROCS": "1"}, shards={"quick": 4, "thorough": 12},
+             rewrite=[{"files": ["proxy/tcp/server.go"], "opts": ["-imports", "-go", "-chan"]}, {"files": ["proxy/tcp/tcp_proxy.go", "proxy/tcp/sni_proxy.go", "proxy/tcp/tcp_dynamic_proxy.go"], "opts": ["-go", "-chan", "-sel", "net.DialTimeout=vhook.DialTimeout"]}]),
+        unit("c18-servers", "proxy", PROXY_COMMON + ["proxy/c18_test.go"], "^TestVerifC18"),
+    ], layers={"quick": ["c18-core", "c18-servers"], "thorough": ["c18-core", "c18-servers"]}),
 }
 
 def layer_unit(pid, layer):
